@@ -280,6 +280,16 @@ func finishAfterFaults(r *harness.Runner) (v *harness.Violation) {
 		first.Msg = fmt.Sprintf("after reopening, the file shows neither the last successfully committed state nor completely the state of a commit whose only failure was a sync (%d candidates): %s", len(candidates), first.Msg)
 		return first
 	}
+	if exposed {
+		// Known finding F16, excluded by construction: the exposed header of the failed attempt may
+		// reference free list / mapping pages that the rollback has truncated or that were re-used, so
+		// the allocator state of this File is undefined even though the contents verified. A write
+		// transaction on it can hand garbage page ids to the background writer (process-wide panic
+		// in the writer goroutine, which no caller can recover). Counted, not continued.
+		r.Counters["known-F16-exposed-no-suffix"]++
+		f.Close()
+		return nil
+	}
 	// continue on the reopened file: a further transaction must commit
 	suffix := &harness.Program{Cfg: r.P.Cfg, Items: []harness.Item{
 		{Tx: &harness.Tx{Ops: []harness.Op{{K: harness.OpAlloc, A: 2}, {K: harness.OpWrite, A: 1 << 20, C: 970001}, {K: harness.OpWriteMany, A: 1, B: 2, C: 970002}}, End: harness.EndCommit}},
